@@ -61,6 +61,18 @@ func run(c config, hist []int, reuse bool) (*emitted, *vsched.Result) {
 		rtcpBuf := make([]byte, 1500)
 		var sent []uint16
 		wseq, rseq := uint16(65534), uint16(65531) // the numbers wrap inside every history of three or more packets
+		jb := c.Kind == "jitterbuffer"
+		if jb {
+			// playout starts after 50 packets: a run of 52 numbers of which the second one is late
+			for j := 0; j < 52; j++ {
+				if j == 1 {
+					continue
+				}
+				h, p := hk.Shape(0, r1.Info.SSRC, 40000+uint16(j), uint32(j)*3000)
+				readOne(em, r1, hk.MarshalRTP(h, p), reuse, rbuf)
+			}
+			rseq = 40051
+		}
 		for _, a := range hist {
 			switch a {
 			case 0, 1, 2, 10:
@@ -101,16 +113,7 @@ func run(c config, hist []int, reuse bool) (*emitted, *vsched.Result) {
 				h, p := hk.Shape(shape, r1.Info.SSRC, rseq, uint32(rseq)*3000)
 				_ = h.SetExtension(hk.TwccExtID, []byte{byte(rseq >> 8), byte(rseq)})
 				raw := hk.MarshalRTP(h, p)
-				if reuse {
-					r1.Buf = rbuf
-					_, _, _ = r1.ReadRTP(raw)
-					for j := range rbuf {
-						rbuf[j] = 0xDD
-					}
-				} else {
-					r1.Buf = make([]byte, 1500)
-					_, _, _ = r1.ReadRTP(raw)
-				}
+				readOne(em, r1, raw, reuse, rbuf)
 			case 5:
 				raw := hk.RawNACK(l1.Info.SSRC, sent...)
 				if len(sent) == 0 {
@@ -129,6 +132,16 @@ func run(c config, hist []int, reuse bool) (*emitted, *vsched.Result) {
 				vsched.Advance(time.Second)
 			}
 			vsched.Quiesce()
+		}
+		if jb {
+			// the late number arrives, then every number the history skipped and a run of 60 more: everything
+			// that was buffered meanwhile is played out
+			h, p := hk.Shape(0, r1.Info.SSRC, 40001, 3000)
+			readOne(em, r1, hk.MarshalRTP(h, p), reuse, rbuf)
+			for q := uint16(40052); q != rseq+61; q++ {
+				h, p := hk.Shape(0, r1.Info.SSRC, q, uint32(q)*3000)
+				readOne(em, r1, hk.MarshalRTP(h, p), reuse, rbuf)
+			}
 		}
 		// drain: everything queued must come out
 		vsched.Advance(2 * time.Second)
@@ -155,6 +168,26 @@ func run(c config, hist []int, reuse bool) (*emitted, *vsched.Result) {
 		}
 	})
 	return em, res
+}
+
+// readOne delivers one incoming packet; what Read hands to the application is part of what is emitted.
+func readOne(em *emitted, r1 *hk.Remote, raw []byte, reuse bool, rbuf []byte) {
+	if reuse {
+		r1.Buf = rbuf
+	} else {
+		r1.Buf = make([]byte, 1500)
+	}
+	n, _, err := r1.ReadRTP(raw)
+	if err == nil && n >= 0 && n <= len(r1.Buf) {
+		em.rtp = append(em.rtp, fmt.Sprintf("read:%x", r1.Buf[:n]))
+	} else {
+		em.rtp = append(em.rtp, fmt.Sprintf("read-error:%v", err != nil))
+	}
+	if reuse {
+		for j := range rbuf {
+			rbuf[j] = 0xDD
+		}
+	}
 }
 
 func deref[T any](p *T) any {
